@@ -79,7 +79,10 @@ def build(rec_, R):
                 attrs['unique'] = False
             if t == 'X':
                 attrs['reorderable'] = False
-            classes[t] = type('Mw' + t, (Middleware,), attrs)
+            base = Middleware
+            if t == 'B' and rec_.get('_related'):
+                base = cls_for('A')      # two DIFFERENT unique types related by inheritance (Auth / AdminAuth(Auth)): both run
+            classes[t] = type('Mw' + t, (base,), attrs)
         return classes[t]
 
     def make_fn(label, ph):
@@ -196,19 +199,37 @@ def build(rec_, R):
         return r
 
     route = Route('/x', endpoint, render, middlewares=route_mws)
+    sibs = []
+    if rec_.get('_sibling'):
+        # a sibling route bound BEFORE the route under test, with a middleware of its own: a route's stack is the merge of
+        # the applications' lists and ITS OWN list - nothing of a sibling's may show up in it
+        class MwSib(Middleware):
+            def request(self, next):
+                R.events.append(['enter', [99, 1], 'none', [0, 0]])
+                return next()
+
+            def endpoint(self, next):
+                R.events.append(['enter', [99, 2], 'none', [0, 0]])
+                return next()
+
+            def render(self, next):
+                R.events.append(['enter', [99, 3], 'none', [0, 0]])
+                return next()
+        sibs = [Route('/sib', lambda: Response('sibling'), middlewares=[MwSib()])]
     if not rec_['inner'] and rec_.get('_direct'):
-        app = Application([route], middlewares=outer)
+        app = Application(sibs + [route], middlewares=outer)
         return app, '/x'
-    sub = Application([route], middlewares=inner)
+    sub = Application(sibs + [route], middlewares=inner)
     app = Application([('/sub', sub)], middlewares=outer)
     return app, '/sub/x'
 
 
-def run_one(rec_, direct=False, share=False, http_exc=False, resp_kind=0, provides=False):
+def run_one(rec_, direct=False, share=False, http_exc=False, resp_kind=0, provides=False, related=False, sibling=False):
     from werkzeug.test import Client
     from werkzeug.wrappers import BaseResponse
     R = Rec()
-    rec_ = dict(rec_, _direct=direct, _share=share, _http_exc=http_exc, _resp_kind=resp_kind, _provides=provides)
+    rec_ = dict(rec_, _direct=direct, _share=share, _http_exc=http_exc, _resp_kind=resp_kind, _provides=provides, _related=related,
+                _sibling=sibling)
     app, path = build(rec_, R)
     cl = Client(app, BaseResponse)
     resp = cl.get(path)
@@ -275,7 +296,9 @@ def check(run):
         exp = expected_events(b)
         direct = (n % 2 == 0)
         share, http_exc, resp_kind, provides = (n % 3 == 1), (n % 4 >= 2), (n // 2) % 3, (n % 5 < 2)
-        obs, status = run_one(b, direct=direct, share=share, http_exc=http_exc, resp_kind=resp_kind, provides=provides)
+        related, sibling = (n % 2 == 1), (n % 3 != 0)
+        obs, status = run_one(b, direct=direct, share=share, http_exc=http_exc, resp_kind=resp_kind, provides=provides,
+                              related=related, sibling=sibling)
         run.evaluations += 1
         if len(b['chain']) >= 2 or b['plan']['k'] != 'none':
             run.nontrivial.add(key)
@@ -288,7 +311,7 @@ def check(run):
             run.violation(classify(exp, obs, k, a, bb),
                           'event %d: spec %r, implementation %r (plan %r)' % (k, a, bb, b['plan']),
                           {'leg': 'L2', 'behaviour': b, 'observed': obs, 'direct': direct, 'share': share, 'http_exc': http_exc, 'resp_kind': resp_kind, 'provides': provides,
-                           'first_diff': [k, a, bb]})
+                           'related': related, 'sibling': sibling, 'first_diff': [k, a, bb]})
         else:
             run.violation('final-status', 'final value %r but status %s' % (b['final'], status),
                           {'leg': 'L2', 'behaviour': b, 'observed': obs, 'direct': direct})
@@ -302,7 +325,8 @@ def replay(run, path):
         rp = json.load(f)
     c = rp['case']
     obs, status = run_one(c['behaviour'], direct=c.get('direct', False), share=c.get('share', False), http_exc=c.get('http_exc', False),
-                          resp_kind=c.get('resp_kind', 0), provides=c.get('provides', False))
+                          resp_kind=c.get('resp_kind', 0), provides=c.get('provides', False), related=c.get('related', False),
+                          sibling=c.get('sibling', False))
     exp = expected_events(c['behaviour'])
     d = first_diff(exp, obs)
     print('expected:', exp)
